@@ -301,10 +301,18 @@ func genHierarchy(r *RNG) *kCase {
 			emit(ind + "  end")
 		}
 		vis := "public"
+		// how a non-public method gets its visibility: a section keyword, the
+		// keyword in front of the definition (`private def m`), or a call naming
+		// the method after it (`private :m`); the latter two leave the section
+		// of the body alone
+		visStyle := r.Intn(3)
 		for _, me := range c.Inst {
-			if me.Vis != vis {
+			def := "def "
+			if me.Vis != vis && (visStyle == 0 || me.Vis == "public") {
 				emit(ind + "  " + me.Vis)
 				vis = me.Vis
+			} else if me.Vis != vis && visStyle == 1 {
+				def = me.Vis + " def "
 			}
 			switch {
 			case strings.HasPrefix(me.Name, "viaq"):
@@ -318,10 +326,13 @@ func genHierarchy(r *RNG) *kCase {
 				kc.Expects = append(kc.Expects, kExpect{Row: row(), Kind: "clean", What: "private method called with the implicit receiver", Feat: "private-implicit"})
 				emit(ind + "    " + me.Body)
 			default:
-				emit(ind + "  def " + me.Name)
+				emit(ind + "  " + def + me.Name)
 				emit(ind + "    " + nLit(me.Ret))
 			}
 			emit(ind + "  end")
+			if me.Vis != vis && visStyle == 2 {
+				emit(ind + "  " + me.Vis + " :" + me.Name)
+			}
 		}
 		emit(ind + "end")
 		if c.Ns != "" {
@@ -665,7 +676,7 @@ func init() {
 			return judgeHierarchy(c, s.BlackBox(), &kc)
 		},
 		Run: func(c *CheckCtx) {
-			c.rule = "generated hierarchies of 1-4 classes (superclass chains of depth 0-3, optionally inside a namespace module and referenced by qualified name) and 0-2 modules that are included or extended; every method returns a literal of a known class; own/inherited/overridden/reopened instance methods, `def self.` and `class << self` class methods, extended modules, initialize with required and optional parameters, private and protected sections followed by public methods, reopenings that add and redefine methods; class names drawn from names the shipped configuration declares in other frames (Base, Relation, Table, Error) and fresh names. Probes: dbtp of calls by name on an instance and on the class (expected: the class of the nearest definition in Ruby's lookup order, or an undefined-method diagnostic), explicit-receiver calls of private methods and top-level calls of protected methods (diagnostic), private via implicit receiver and protected via another instance inside the hierarchy (no diagnostic, right type), new with accepted / too few / too many arguments; no diagnostic on any definition row. distinct_nontrivial = distinct programs"
+			c.rule = "generated hierarchies of 1-4 classes (superclass chains of depth 0-3, optionally inside a namespace module and referenced by qualified name) and 0-2 modules that are included or extended; every method returns a literal of a known class; own/inherited/overridden/reopened instance methods, `def self.` and `class << self` class methods, extended modules, initialize with required and optional parameters, private and protected methods (by section keyword followed by `public`, by `private def m`, or by `private :m` after the definition) followed by public methods, reopenings that add and redefine methods; class names drawn from names the shipped configuration declares in other frames (Base, Relation, Table, Error) and fresh names. Probes: dbtp of calls by name on an instance and on the class (expected: the class of the nearest definition in Ruby's lookup order, or an undefined-method diagnostic), explicit-receiver calls of private methods and top-level calls of protected methods (diagnostic), private via implicit receiver and protected via another instance inside the hierarchy (no diagnostic, right type), new with accepted / too few / too many arguments; no diagnostic on any definition row. distinct_nontrivial = distinct programs"
 			c.assumptions = []string{"module method names are unique per module and differ from class method names, so Ruby's module-vs-superclass order never decides a probe", "private/protected method names are unique per class"}
 			r := c.RNG.Sub(16)
 			n := c.N(300, 8000)
